@@ -28,7 +28,7 @@ def exhaustive(tier):
 
 def required(tier):
     return {"base_unit_cases": 2500, "members_checked": 20, "compatible_restricted": 500,
-            "sys_attr_checked": 200, "history_steps": 100, "generated_registries": 10}
+            "sys_attr_checked": 200, "history_steps": 100, "generated_registries": 10, "edited_group_steps": 8}
 
 
 SYSTEMS = [None, "SI", "mks", "cgs", "atomic", "Planck", "imperial", "US"]
@@ -261,6 +261,56 @@ def run_shard(spec, rec):
                                                             "missing": sorted(want - got)[:6],
                                                             "extra": sorted(got - want)[:6]},
                                   workload="members", target="system" if target in sysmem else "group")
+        # groups EDITED after their members were read: a group's members stay "its own units plus those of
+        # every group it uses", so a unit taken off the own list that a used group still provides remains a
+        # member (and the systems and restricted listings that go through the group agree)
+        ed = pintload.registry(non_int_type=F)
+        users = [g for g in sorted(ed._groups) if ed._groups[g]._used_groups and g != "root"]
+        for gname in users:
+            grp = ed.get_group(gname, False)
+
+            def rule_members(name):
+                g = ed._groups[name]
+                out = set(g.non_inherited_unit_names)
+                for u in g._used_groups:
+                    out |= rule_members(u)
+                return out
+            before = set(grp.members)                      # fills the memo
+            for S in ed._systems:
+                set(ed.get_system(S, False).members)
+            inherited = sorted(before - set(grp.non_inherited_unit_names))
+            if not inherited:
+                continue
+            x = rng.choice(inherited)
+            outsider = rng.choice(sorted(set(m.units) - before))
+            steps = [("add-inherited", lambda: grp.add_units(x)), ("remove-it-again", lambda: grp.remove_units(x)),
+                     ("add-outsider", lambda: grp.add_units(outsider)), ("remove-outsider", lambda: grp.remove_units(outsider))]
+            for sname, fn in steps:
+                rec.count("edited_group_steps")
+                rec.case(("edited-group", gname, sname), nontrivial=True)
+                try:
+                    fn()
+                    got = set(grp.members)
+                except Exception as e:  # noqa: BLE001
+                    rec.violation("group-edit-raised", {"group": gname, "step": sname, "err": repr(e)[:200]},
+                                  workload="edited-groups", target="group")
+                    break
+                want = rule_members(gname)
+                if got != want:
+                    rec.violation("group-members", {"group": gname, "step": sname, "unit": x if "outsider" not in sname else outsider,
+                                                    "missing": sorted(want - got)[:8], "extra": sorted(got - want)[:8]},
+                                  workload="edited-groups", target="group")
+                for S in ed._systems:
+                    sy = ed.get_system(S, False)
+                    if gname in getattr(sy, "_used_groups", ()):
+                        swant = set()
+                        for gg in sy._used_groups:
+                            swant |= rule_members(gg)
+                        if set(sy.members) != swant:
+                            rec.violation("system-members", {"system": S, "after_editing_group": gname, "step": sname,
+                                                             "missing": sorted(swant - set(sy.members))[:8],
+                                                             "extra": sorted(set(sy.members) - swant)[:8]},
+                                          workload="edited-groups", target="system")
         # ureg.sys.S.name
         for S in m.systems:
             sysobj = getattr(ureg.sys, S)
